@@ -48,6 +48,12 @@ def main():
         meta = json.load(open(mf))
         name = meta['name']
         chk, obs = catching(meta)
+        rc_ = meta.get('recheck')
+        if rc_:
+            # latest re-run of the registered check against the current tree + this change (tools/seed_recheck.py)
+            _, obs2 = catching({'check_with_change': {'violations': rc_.get('failed', [])}})
+            obs = obs2 or obs
+            meta = dict(meta, caught=rc_['caught'])
         files = []
         try:
             for ln in open(os.path.join(os.path.dirname(mf), 'patch.diff')):
